@@ -148,9 +148,10 @@ TEXT.update({
  },
  "C29": {
   "engine": "M",
-  "technique": "typed symbolic evaluation of the MIR of create_a_associate_req (unknown callees havocked) and of its identifier closure; z3 query over the number of contexts and two positions; replay over a loopback socket",
-  "level": "For every number of proposed contexts that the requestor's own guards let through, identifiers are odd and pairwise distinct.",
-  "note": "only the identifier clause of C29; havoc mode over-approximates, counterexamples are confirmed against a real requestor before being reported",
+  "technique": "typed symbolic evaluation of the MIR of create_a_associate_req (unknown callees havocked) and of its identifier closure, and symbolic execution of the MIR of encode_pdu/write_pdu; z3 queries over the number of contexts, two positions and the peer maximum; replay over a loopback socket",
+  "level": "For every number of proposed contexts that the requestor's own guards let through, identifiers are odd and pairwise distinct. Send-size limit: the MIR of encode_pdu and write_pdu is executed on "
+           "P-DATA-TF PDUs of concrete shape with a symbolic peer maximum; the solver shows Ok is returned exactly when the encoded PDU (6 + sum(6 + payload)) is no longer than the maximum.",
+  "note": "identifier and send-size clauses of C29 only (agreement of both sides on contexts and lengths is not encoded); havoc mode over-approximates, counterexamples are confirmed against a real requestor / a real loopback association before being reported",
  },
 })
 
